@@ -47,7 +47,8 @@ def showOutcome (op : String) (cfg : Config) : Outcome → String
     let e := if earlyClientFollowsHttp callTime cfg then "followed" else "refused"
     let h := iamEndpoint tlds l2s iamAssigned cfg (bytesOf "http://c.verif.test:1003/meta")
     let i := iamEndpoint tlds l2s iamAssigned cfg (bytesOf "https://127.0.0.1:1001/meta")
-    s!"{op} ok dummy={d} remotectx={c} clientstrict={r.clientStrict} earlyclient={e} iamhttp={h} iamip={i}"
+    let vc := iamEndpoint tlds l2s false cfg (bytesOf "http://c.verif.test:1003/credential")   -- VerifiableCredentials has no endpoint check of its own
+    s!"{op} ok dummy={d} remotectx={c} clientstrict={r.clientStrict} earlyclient={e} iamhttp={h} iamip={i} iamsites=same iamvc={vc}"
 
 def step (st : Unit) (j : Json) : Unit × List String :=
   let line : String :=
